@@ -4,6 +4,7 @@
 -/
 import Driver.Codec
 import Driver.Conv
+import Driver.Ser
 import RevalModel.Impl.RuleSet
 import RevalModel.Spec.OperatorTable
 
@@ -38,6 +39,8 @@ def handle (line : String) : String :=
     | some op, some a, some b => if (a, b) ∈ op.sig then "1" else "0"
     | _, _, _ => "bad-request supported"
   | ["conv", op, arg] => handleConv op arg
+  | ["ser", arg] => handleSer arg
+  | ["evalser", rules, input, env, oracle] => handleEvalSer rules input env oracle
   | ["ping"] => "pong"
   | _ => "bad-request"
 
